@@ -8,6 +8,6 @@ CONSTANTS
   OfferVer <- OV1
   OutReqs = {"r1", "r2", "r3"}
   QueueCap = 1
-  Devs = {}
-INVARIANTS OneVerdictPerKey AcceptJustified ConnIdIffAccepted NoDoubleReceive DeliveredExactly HeldWithinLimit TransfersWithinLimit AllReturnedWhenQuiet AllReturnedAfterStop
+  Devs = {"ReleaseAtTransferStart"}
+INVARIANTS TransfersWithinLimit
 CHECK_DEADLOCK FALSE
